@@ -128,7 +128,18 @@ func newVerifCtx(closeAt int) *verifCtx {
 }
 
 func (c *verifCtx) Deadline() (time.Time, bool)       { return time.Time{}, false }
-func (c *verifCtx) Err() error                        { return nil }
+type verifCancelled struct{}
+
+func (verifCancelled) Error() string { return "context cancelled" }
+
+// Err follows the context contract: non-nil exactly when Done() is (or would now be) closed; it counts as a poll too
+func (c *verifCtx) Err() error {
+	c.calls++
+	if c.closeAt != 0 && c.calls >= c.closeAt {
+		return verifCancelled{}
+	}
+	return nil
+}
 func (c *verifCtx) Value(key interface{}) interface{} { return nil }
 func (c *verifCtx) Done() <-chan struct{} {
 	c.calls++
